@@ -256,6 +256,7 @@ Section Facts.
     assert (SEQ : forall sh cells,
       (if (if list_eq_dec Nat.eq_dec sh [length ps] then true else false)
        then let '(d, e0) := write_cells (pycast (vdtype v)) ps cells (vdata v) in (with_data v d, e0)
+       else if negb (Nat.eqb (length sh) 1) then (v, Some ValueError)
        else match cast_all (pycast (vdtype v)) cells with
             | Raise e0 => (v, Some e0)
             | Ret cells' => match bcast_seq (length ps) sh cells' with
@@ -266,7 +267,8 @@ Section Facts.
     { intros sh cells H0. destruct (list_eq_dec Nat.eq_dec sh [length ps]) as [Esh|Nsh].
       - destruct (write_cells (pycast (vdtype v)) ps cells (vdata v)) as [dx ex] eqn:W.
         inversion H0; subst. right. apply write_cells_err in W as [c W]. exists (vdtype v), c. left. exact W.
-      - destruct (cast_all (pycast (vdtype v)) cells) as [cells'|ex]; [|inversion H0; subst; left; reflexivity].
+      - destruct (negb (Nat.eqb (length sh) 1)); [inversion H0; subst; left; reflexivity|].
+        destruct (cast_all (pycast (vdtype v)) cells) as [cells'|ex]; [|inversion H0; subst; left; reflexivity].
         destruct (bcast_seq (length ps) sh cells'); inversion H0; subst; left; reflexivity. }
     destruct value as [c|k items|a b c|sh dt cells]; cbv beta iota in H.
     - destruct (pycast (vdtype v) c); inversion H; subst; left; reflexivity.
